@@ -48,6 +48,17 @@ def run(repo: Repo, tier: str, res: CheckResult, seed: int = 0) -> None:
     # history-free only if the normal form does not depend on the order/spelling the hint was first seen with
     from .c15 import ordering_rule
     ordering_rule(repo, repo.mod("type_tools/normalize_type"), res, prop="C11")
+    # a provider that stores a one-shot iterable consumes it request by request: its answers depend on the call history
+    # (shared rule with C10: every construction site of an Or/And/Xor checker passes a re-iterable collection)
+    from .c10 import reiterable_sites
+    sub = CheckResult("C10")
+    reiterable_sites(repo, sub)
+    res.evaluated("state:one-shot-iterables", True)
+    for f in sub.findings:
+        res.add(Finding("C11", "STATE.one-shot-iterator-held", f.file, f.qualname, f.construct,
+                        "a predicate checker is built over a one-shot iterable (map/filter/generator) and stored in the "
+                        "provider: every routing check consumes items, so which requests matched before decides what matches "
+                        "now, and clones made by replace()/extend() share the half-consumed iterator", f.line))
     res.assumptions = list(ASSUMPTIONS)
 
 
